@@ -31,6 +31,9 @@ def _finish(op, cause, valid_otherwise=False, category=None):
     return op
 
 
+NS_ORDER = ('iso', 'joliet', 'udf')
+
+
 class DoomedGen:
     def __init__(self, opgen):
         self.g = opgen
@@ -91,6 +94,18 @@ class DoomedGen:
         m, r = self.m, self.r
         if not m.has('joliet'):
             return None
+        if r.random() < 0.25:
+            # the same limit through add_hard_link (and UDF's through its own new path)
+            op = self.g.g_add_link()
+            if op is None:
+                return None
+            ns = r.choice([n_ for n_ in ('joliet', 'udf') if m.has(n_)])
+            op['new_ns'] = ns
+            op.pop('rr', None)
+            parent = self.g._pick_dir(ns)
+            n = r.choice((65, 66, 100, 110)) if ns == 'joliet' else r.choice((255, 256, 300))
+            op['new'] = M.join(parent, ''.join(r.choice(G.RRCHARS.replace('.', '')) for _ in range(n)))
+            return _finish(op, '%s-name-too-long:add_hard_link' % ns, True, 'name-rule')
         kind = r.choice(('add_fp', 'add_dir'))
         op = _fresh(self.g, kind, nss=[ns for ns in ('iso', 'joliet', 'udf') if m.has(ns) and (ns == 'joliet' or r.random() < 0.6)])
         if op is None or 'joliet' not in op:
@@ -306,6 +321,27 @@ class DoomedGen:
         api = r.choice(('rm_file', 'rm_link'))
         return _finish({'op': api, 'ns': ns, 'path': ghost}, 'missing-path:%s:%s' % (api, ns), False, 'missing-path')
 
+    def removed_name(self):
+        """A call on a name that existed earlier in the history and was removed: whatever still remembers it (a lookup memo
+        that outlived the removal or a close()) must not let the call through, or half through."""
+        m, r = self.m, self.r
+        gone = [(ns, p, k) for ns, p, k in m.removed_names if ns in m.roots and m.get(ns, p) is None and m.get(ns, M.split(p)[0]) is not None]
+        if not gone:
+            return None
+        ns, p, kind = r.choice(gone)
+        if kind == 'dir':
+            op = {'op': 'rm_dir', ns: p}
+            # empty directories that do exist in the namespaces the call handles first
+            for other in ('iso', 'joliet', 'udf'):
+                if other == ns or other not in m.roots or NS_ORDER.index(other) > NS_ORDER.index(ns):
+                    continue
+                empties = [q for q, n in m.iter_ns(other) if n.kind == 'dir' and not n.children and not n.reloc]
+                if empties and r.random() < 0.7:
+                    op[other] = r.choice(empties)
+            return _finish(op, 'missing-path:rm_directory-of-removed-name:%s' % ns, False, 'missing-path')
+        api = r.choice(('rm_file', 'rm_link'))
+        return _finish({'op': api, 'ns': ns, 'path': p}, 'missing-path:%s-of-removed-name:%s' % (api, ns), False, 'missing-path')
+
     def link_to_directory(self):
         """add_hard_link whose old path is a directory."""
         m, r = self.m, self.r
@@ -518,7 +554,7 @@ class DoomedGen:
 
     GENS = ('bad_iso_file_name', 'bad_iso_dir_name', 'joliet_too_long', 'udf_too_long', 'rr_too_long', 'symlink_other_namespace_taken', 'rm_dir_partly_nonempty', 'udf_symlink_component_too_long', 'bad_new',
             'depth', 'duplicate', 'duplicate', 'duplicate', 'missing_parent',
-            'missing_parent', 'wrong_type_rm', 'wrong_type_rm', 'eltorito_protected', 'wrong_extension', 'bad_boot', 'bad_hybrid', 'bad_relocated_name', 'link_to_directory', 'state',
+            'missing_parent', 'wrong_type_rm', 'wrong_type_rm', 'eltorito_protected', 'wrong_extension', 'bad_boot', 'bad_hybrid', 'bad_relocated_name', 'link_to_directory', 'removed_name', 'removed_name', 'state',
             'io_fault_boot', 'io_fault_write')
 
     NAME_RULE_GENS = ('bad_iso_file_name', 'bad_iso_file_name', 'bad_iso_dir_name', 'joliet_too_long', 'depth', 'duplicate', 'duplicate', 'duplicate')
